@@ -28,7 +28,7 @@ func explain(path string) int {
 		return 2
 	}
 	fmt.Printf("property : %s\nrule     : %s - %s\nconstruct: %s\nrecorded : %s\n", rf.Property, rf.Obligation.Rule, rf.Statement, rf.Obligation.Construct, rf.Obligation.Detail)
-	p, err := Load("/repo", nil)
+	p, err := Load(repoDir(), nil)
 	if err != nil {
 		fmt.Fprintln(os.Stderr, err)
 		return 2
